@@ -277,6 +277,9 @@ class Executor:
         :param max_qubits: Maximum number of qubits the application is allowed to
             allocate at the same time.
         """
+        if app_id in self._qubit_unit_modules:
+            # Do not overwrite the memory of an application that is still registered
+            raise RuntimeError(f"Application with app ID {app_id} is already registered")
         self.allocate_new_qubit_unit_module(app_id=app_id, num_qubits=max_qubits)
         self._setup_registers(app_id=app_id)
         self._setup_arrays(app_id=app_id)
